@@ -903,6 +903,9 @@ func init() {
 			k.Frankenstein = 1
 			k.MaxGas = -1
 			k.NumEthUsers = 2 + rng.Intn(3)
+			// a roomy block gas limit in half of the runs: a transaction asking for more gas than a block holds is
+			// turned away by the gas pool inside the state transition (after the account was read)
+			k.MaxGas = []int64{-1, 40000000}[rng.Intn(2)]
 			su := &Setup{Knobs: k, Sess: gen.NewSession()}
 			if rng.Intn(2) == 0 {
 				su.Sess.M["olvm-basefee"] = true // calls that panic inside the EVM (answered with an error code)
